@@ -4,7 +4,7 @@
    contexts. *)
 From Coq Require Import List Bool.
 Import ListNotations.
-From DDP Require Import Gen.Operators Lower.TcTable Lower.LowerTable Lower.Cells.
+From DDP Require Import Gen.OperatorEnum Lower.TcTable Lower.LowerTable Lower.Cells.
 
 (* ---- the enumerations are complete -------------------------------------------------------- *)
 Ltac in_enum := cbv; repeat (first [left; reflexivity | right]).
